@@ -240,3 +240,266 @@ package cluster_info
 //@   ensures [mapOnlyLiveNodes] result2 == nil ==> result0 != nil && (forall k in result0 :: brOK(result0[k]) && result0[k].BindRequest.Spec.SelectedNode in nodes && k == brKey(result0[k].BindRequest))
 //@   ensures [deletedOnlyMissingNodesOfPool] result2 == nil ==> (forall j int :: 0 <= j && j < len(result1) ==> brOK(result1[j]) && !(result1[j].BindRequest.Spec.SelectedNode in nodes) && poolMatch(c.nodePoolSelector, result1[j].BindRequest.Labels))
 //@ end
+
+// ==== added by helper "cache": snapshot construction (C12 C14 C01 C10) ==============================================
+// Data invariant of a ClusterInfo built by New (New dereferences nodePoolParams, stores the selector it obtained
+// without error and the data lister it created; cache.newSchedulerCache passes &sc.K8sClusterPodAffinityInfo).
+// It is the precondition of every snapshot step below.
+//@ define ciWF(c *ClusterInfo) bool = c != nil && c.dataLister != nil && c.nodePoolParams != nil && c.nodePoolSelector != nil && c.clusterPodAffinityInfo != nil
+
+// C10 "pod groups with unknown queues": a pod group whose queue is not in the snapshot gets an error (and the job a
+// fit error in snapshotPodGroups), never a panic.
+//@ func validatePodgroupQueue
+//@   props C10
+//@   requires podGroup != nil
+//@   pure
+//@   ensures [unknownQueueReported] (result == nil) == (podGroup.Spec.Queue in existingQueues)
+//@ end
+
+// the default priority: the value of the first global-default priority class, else the built-in default
+//@ func getDefaultPriority
+//@   props C10
+//@   requires dataLister != nil
+//@   loop 1
+//@     invariant 0 - 1 <= rangeindex && rangeindex < len(priorityClasses)
+//@     invariant forall i int :: 0 <= i && i < len(priorityClasses) ==> priorityClasses[i] != nil
+//@ end
+
+//@ func getPodGroupPriority
+//@   props C10
+//@   requires podGroup != nil && dataLister != nil
+//@   pure
+//@ end
+
+// conf.GetConfig guards the process-wide configuration with a sync.Mutex.  Sequential model: taking and releasing
+// the lock has no effect on any location a contract mentions (no other goroutine is considered anywhere in this work).
+//@ func (*sync.Mutex).Lock
+//@   props C10
+//@   trusted
+//@   note sync.Mutex is outside the subset (DESIGN 1.4); sequential model: no effect on the heap
+//@   pure
+//@ end
+//@ func (*sync.Mutex).Unlock
+//@   props C10
+//@   trusted
+//@   note sync.Mutex is outside the subset (DESIGN 1.4); sequential model: no effect on the heap
+//@   pure
+//@ end
+
+// node filter of restricted scheduling: only nodes carrying one of the two worker labels (nodes without labels are dropped)
+//@ func filterUnmarkedNodes
+//@   props C10
+//@   requires forall i int :: 0 <= i && i < len(nodes) ==> nodes[i] != nil
+//@   note conf.GetConfig lazily creates the process-wide configuration object (package variable conf.config)
+//@   loop 1
+//@     invariant 0 - 1 <= rangeindex && rangeindex < len(nodes)
+//@     invariant forall i int :: 0 <= i && i < len(nodes) ==> nodes[i] != nil
+//@     invariant forall i int :: 0 <= i && i < len(markedNodes) ==> markedNodes[i] != nil
+//@   ensures [noNil] forall i int :: 0 <= i && i < len(result) ==> result[i] != nil
+//@ end
+
+//@ func (*ClusterInfo).isPodGroupUpForScheduler
+//@   props C10
+//@   requires ciWF(c) && podGroup != nil
+//@   pure
+//@ end
+
+//@ func (*ClusterInfo).filterUnassignedPodGroups
+//@   props C10
+//@   requires ciWF(c)
+//@   requires forall i int :: 0 <= i && i < len(podGroups) ==> podGroups[i] != nil
+//@   loop 1
+//@     invariant 0 - 1 <= rangeindex && rangeindex < len(podGroups)
+//@     invariant forall i int :: 0 <= i && i < len(assignedPodGroups) ==> assignedPodGroups[i] != nil
+//@   ensures [noNil] forall i int :: 0 <= i && i < len(result) ==> result[i] != nil
+//@ end
+
+//@ func (*ClusterInfo).snapshotConfigMaps
+//@   props C10
+//@   requires ciWF(c)
+//@   loop 1
+//@     invariant 0 - 1 <= rangeindex && rangeindex < len(configMaps)
+//@     invariant forall i int :: 0 <= i && i < len(configMaps) ==> configMaps[i] != nil
+//@     invariant result != nil && fresh(result)
+//@ end
+
+//@ func (*ClusterInfo).snapshotTopologies
+//@   props C10
+//@   requires ciWF(c)
+//@ end
+
+// ---- C12: the tasks of the snapshot ---------------------------------------------------------------------------------
+// a LIVE bind request of the pod: one is stored under the pod's key (snapshotBindRequests stores only requests whose
+// selected node is in the snapshot) and it is not terminally failed (bindrequest_info.brFailed)
+//@ define brLive(brm bindrequest_info.BindRequestMap, pod *v1.Pod) bool = bindrequest_info.objKey(pod.Namespace, pod.Name) in brm && !bindrequest_info.brFailed(brm[bindrequest_info.objKey(pod.Namespace, pod.Name)].BindRequest)
+//@ define brOf(brm bindrequest_info.BindRequestMap, pod *v1.Pod) *bindrequest_info.BindRequestInfo = brm[bindrequest_info.objKey(pod.Namespace, pod.Name)]
+//@ define brMapOK(brm bindrequest_info.BindRequestMap) bool = forall k in brm :: brm[k] != nil && brm[k].BindRequest != nil
+
+// C12 "From the moment the scheduler creates a BindRequest until it reaches a terminal outcome, every snapshot charges
+// the pod's resources (including GPU groups ...) to the selected node ...; requests for deleted nodes and terminally
+// failed requests are deleted and their pods become schedulable again": task t was built from its pod and the bind
+// request map: with a live request a pending, unbound, undeleted pod is Binding (taskStatusOf), placed on the request's
+// SelectedNode and carries its SelectedGPUGroups; without one (none stored: never created, already deleted, selected
+// node not in the snapshot; or terminally failed) it is Pending/Gated on no node ("").  Written in two steps: the
+// task's BindRequest field is the live request or nil (builtFrom), and status / node / groups follow that field
+// (taskOfRequest); brMapOK makes "live" and "t.BindRequest != nil" the same thing.
+//@ define taskOfRequest(t *pod_info.PodInfo) bool = t.Status == pod_info.taskStatusOf(t.Pod, t.BindRequest != nil) && t.NodeName == ite(t.Pod.Spec.NodeName == "" && t.BindRequest != nil, t.BindRequest.BindRequest.Spec.SelectedNode, t.Pod.Spec.NodeName) && (t.BindRequest != nil && len(t.BindRequest.BindRequest.Spec.SelectedGPUGroups) > 0 ==> t.GPUGroups == t.BindRequest.BindRequest.Spec.SelectedGPUGroups)
+//@ define builtFrom(t *pod_info.PodInfo, brm bindrequest_info.BindRequestMap) bool = t.BindRequest == ite(brLive(brm, t.Pod), brOf(brm, t.Pod), nil) && taskOfRequest(t)
+// what node_info.AddTask needs of a task (node_info.taskWF) with request objects that no node accounting can share
+//@ define newTask(t *pod_info.PodInfo) bool = t != nil && t.Pod != nil && t.ResReq != nil && t.ResReq.scalarResources != nil && fresh(t.ResReq.scalarResources) && t.AcceptedResource != nil && t.AcceptedResource.scalarResources != nil && fresh(t.AcceptedResource.scalarResources) && (t.ResReq.migResources == nil || fresh(t.ResReq.migResources)) && fresh(t.AcceptedResource.migResources)
+// The lists are quantified over their element CELLS (r = &m[n][j], `incells`): the index form m[n][j] puts arithmetic
+// into the quantifier patterns and the solvers do not get through `append`.
+// every task listed under node name n: is new, is on n, is (not) a reservation pod, and was built from its pod and brm
+// heap closure, stated explicitly: the cells of the lists and the tasks in them exist already (so whatever the next
+// iteration allocates is different from them); the engine knows this only for values it loaded itself
+//@ define listAlloc(m map[string][]*pod_info.PodInfo) bool = forall n string, r **pod_info.PodInfo :: n in m && incells(r, m[n]) ==> allocated(r) && allocated(*r)
+//@ define listNew(m map[string][]*pod_info.PodInfo) bool = forall n string, r **pod_info.PodInfo :: n in m && incells(r, m[n]) ==> newTask(*r)
+//@ define listKeyed(m map[string][]*pod_info.PodInfo, resv bool) bool = forall n string, r **pod_info.PodInfo :: n in m && incells(r, m[n]) ==> (*r).NodeName == n && pod_info.isReservationPod((*r).Pod) == resv
+//@ define listBuilt(m map[string][]*pod_info.PodInfo, brm bindrequest_info.BindRequestMap) bool = forall n string, r **pod_info.PodInfo :: n in m && incells(r, m[n]) ==> builtFrom(*r, brm)
+// all of the above in ONE quantifier (loop invariant form: one instantiation per cell instead of four)
+//@ define listOK(m map[string][]*pod_info.PodInfo, brm bindrequest_info.BindRequestMap, resv bool) bool = forall n string, r **pod_info.PodInfo :: n in m && incells(r, m[n]) ==> allocated(r) && allocated(*r) && newTask(*r) && (*r).NodeName == n && pod_info.isReservationPod((*r).Pod) == resv && builtFrom(*r, brm)
+//@ define listDistinct(m map[string][]*pod_info.PodInfo) bool = forall n string, r1 **pod_info.PodInfo, r2 **pod_info.PodInfo :: n in m && incells(r1, m[n]) && incells(r2, m[n]) && r1 != r2 ==> *r1 != *r2
+// pod p has its task in the list of the node it was placed on
+//@ define podListed(m map[string][]*pod_info.PodInfo, p *v1.Pod) bool = exists n string, j int :: n in m && 0 <= j && j < len(m[n]) && m[n][j].Pod == p
+
+//@ func (*ClusterInfo).getNodeToPodInfosMap
+//@   props C12 C10 C14 C01
+//@   requires ciWF(c) && resource_info.vmWF(vectorMap) && brMapOK(bindRequests) && resource_info.claimsNonNil(draResourceClaims)
+//@   requires forall i int :: 0 <= i && i < len(allPods) ==> allPods[i] != nil
+//@   modifies vectorMap.namesToIndex[*], vectorMap.resourceNames
+//@   loop 1
+//@     invariant 0 - 1 <= rangeindex && rangeindex < len(allPods)
+//@     invariant resource_info.vmWF(vectorMap)
+//@     invariant nodePodInfosMap != nil && fresh(nodePodInfosMap) && nodeReservationPodInfosMap != nil && fresh(nodeReservationPodInfosMap) && nodePodInfosMap != nodeReservationPodInfosMap
+//@     invariant resource_info.podClaimsNonNil(podsToClaimsMap) && resource_info.claimMapNonNil(draClaimMap)
+//@     invariant resource_info.draIndexFrame(podsToClaimsMap)
+//@     invariant listOK(nodePodInfosMap, bindRequests, false)
+//@     invariant listOK(nodeReservationPodInfosMap, bindRequests, true)
+//@   loop 2
+//@     invariant 0 - 1 <= rangeindex
+//@     invariant resource_info.vmWF(vectorMap)
+//@   ensures [noError] result2 == nil && result0 != nil && result1 != nil && result0 != result1
+//@   ensures [tasksAreNew] listNew(result0) && listNew(result1)
+//@   ensures [listedUnderOwnNode] listKeyed(result0, false) && listKeyed(result1, true)
+//@   ensures [bindingPodsOnSelectedNode] listBuilt(result0, bindRequests) && listBuilt(result1, bindRequests)
+//@   ensures [layout] resource_info.vmWF(vectorMap)
+//@ end
+
+// ---- C14 / C01 / C10: the nodes of the snapshot ---------------------------------------------------------------------
+//@ func NewK8sNodePodAffinityInfo
+//@   props C10 C14
+//@   trusted
+//@   note builds a k8s scheduler-framework NodeInfo (k8s.io/kubernetes/pkg/scheduler/framework: external) and registers it in the cluster pod-affinity index (interface pod_affinity.ClusterPodAffinityInfo, implemented in package cache); this bookkeeping is outside the scheduler's resource model (see pod_affinity.NodePodAffinityInfo.AddPod): assumed to touch no object the contracts mention and to return a non-nil value
+//@   requires node != nil && clusterPodAffinityInfo != nil
+//@   ensures result != nil
+//@ end
+
+// what every node of the snapshot map satisfies (pointer level: survives every later step that only moves amounts)
+//@ define snapNodeOK(nodes map[string]*node_info.NodeInfo) bool = forall n in nodes :: nodes[n] != nil && nodes[n].Name == n && node_info.nodeShape(nodes[n]) && node_info.podsWF(nodes[n]) && nodes[n].Allocatable != nodes[n].Idle && nodes[n].MemoryOfEveryGpuOnNode == node_info.nodeGpuMemory(nodes[n].Node)
+// C14 "pods present": no pod has been put on any node yet, and no amount that only pods move has moved: Used and
+// Releasing are zero in cpu, memory and every scalar resource, Idle equals Allocatable in them, no shared-GPU entry
+// exists.  (The whole-GPU component is stated per node by NewNodeInfo / AddDRAGPUs; at map level it would need
+// pairwise separation of the nodes' Resource objects.)
+//@ define snapNodeEmpty(nodes map[string]*node_info.NodeInfo) bool = forall n in nodes :: (forall k common_info.PodID :: !(k in nodes[n].PodInfos)) && node_info.noSharedGpus(nodes[n]) && nodes[n].Used.milliCpu == 0.0 && nodes[n].Used.memory == 0.0 && nodes[n].Releasing.milliCpu == 0.0 && nodes[n].Releasing.memory == 0.0 && nodes[n].Idle.milliCpu == nodes[n].Allocatable.milliCpu && nodes[n].Idle.memory == nodes[n].Allocatable.memory && (forall k v1.ResourceName :: !(k in nodes[n].Used.scalarResources) && !(k in nodes[n].Releasing.scalarResources) && nodes[n].Idle.scalarResources[k] == nodes[n].Allocatable.scalarResources[k] && (k in nodes[n].Idle.scalarResources <==> k in nodes[n].Allocatable.scalarResources))
+
+// GPUs offered through DRA ResourceSlices are added to Allocatable and Idle of the node (AddDRAGPUs); only amounts move.
+// frame of that step, per family it writes under a loop-variant node: objects that belong to no node of the map keep their value
+//@ define draOnlyNodeGpus(nodes map[string]*node_info.NodeInfo) bool = forall r *resource_info.Resource :: (forall n in nodes :: r != nodes[n].Allocatable && r != nodes[n].Idle) ==> r.gpus == old(r.gpus)
+//@ define draOnlyNodeFlags(nodes map[string]*node_info.NodeInfo) bool = forall x *node_info.NodeInfo :: (forall n in nodes :: x != nodes[n]) ==> x.HasDRAGPUs == old(x.HasDRAGPUs)
+//@ define draOnlyNodeVectors(nodes map[string]*node_info.NodeInfo) bool = forall p *float64 :: (forall n in nodes :: !incells(p, nodes[n].AllocatableVector) && !incells(p, nodes[n].IdleVector)) ==> *p == old(*p)
+//@ define slicesNonNil(m map[string][]*resourceapi.ResourceSlice) bool = forall s string, r **resourceapi.ResourceSlice :: s in m && incells(r, m[s]) ==> *r != nil
+//@ func (*ClusterInfo).populateDRAGPUs
+//@   props C14 C01 C10
+//@   requires ciWF(c) && snapNodeOK(nodes)
+//@   modifies family(nodes[""].Allocatable.gpus), family(nodes[""].AllocatableVector[*]), family(nodes[""].HasDRAGPUs)
+//@   loop 1
+//@     invariant snapNodeOK(nodes)
+//@     invariant slicesNonNil(slicesByNode)
+//@     invariant draOnlyNodeGpus(nodes) && draOnlyNodeFlags(nodes) && draOnlyNodeVectors(nodes)
+//@   loop 2
+//@     invariant 0 - 1 <= rangeindex
+//@     invariant snapNodeOK(nodes)
+//@     invariant slicesNonNil(slicesByNode)
+//@     invariant draOnlyNodeGpus(nodes) && draOnlyNodeFlags(nodes) && draOnlyNodeVectors(nodes)
+//@   ensures [shapeKept] snapNodeOK(nodes)
+//@   ensures [onlyNodeGpus] draOnlyNodeGpus(nodes)
+//@   ensures [onlyNodeFlags] draOnlyNodeFlags(nodes)
+//@   ensures [onlyNodeVectors] draOnlyNodeVectors(nodes)
+//@ end
+
+// C14 / C01 (establish) + C10 "nodes without labels or with zero capacity": one NodeInfo per listed node, stored under
+// the node's name, built by NewNodeInfo (Idle = Allocatable = node.status.allocatable, nothing used, no pods), then
+// populateDRAGPUs.  The per-GPU memory is whatever the label says (nodeGpuMemory): NOT necessarily positive (F1).
+//@ func (*ClusterInfo).snapshotNodes
+//@   props C14 C01 C10
+//@   requires ciWF(c) && clusterPodAffinityInfo != nil && resource_info.vmWF(vectorMap)
+//@   modifies vectorMap.namesToIndex[*], vectorMap.resourceNames
+//@   loop 1
+//@     invariant 0 - 1 <= rangeindex && rangeindex < len(nodes)
+//@     invariant forall i int :: 0 <= i && i < len(nodes) ==> nodes[i] != nil
+//@     invariant resource_info.vmWF(vectorMap)
+//@     invariant resultNodes != nil && fresh(resultNodes)
+//@     invariant forall n in resultNodes :: fresh(resultNodes[n]) && fresh(resultNodes[n].PodInfos) && fresh(resultNodes[n].Used) && fresh(resultNodes[n].Releasing) && fresh(resultNodes[n].Idle) && fresh(resultNodes[n].Allocatable) && resource_info.freshArray(resultNodes[n].AllocatableVector) && resource_info.freshArray(resultNodes[n].IdleVector)
+//@     invariant snapNodeOK(resultNodes)
+//@     invariant snapNodeEmpty(resultNodes)
+//@   ensures [listError] err != nil ==> nodesMap == nil
+//@   ensures [nodesKeyedAndShaped] err == nil ==> nodesMap != nil && snapNodeOK(nodesMap)
+//@   ensures [noPodsNothingUsed] err == nil ==> snapNodeEmpty(nodesMap)
+//@   ensures [layout] resource_info.vmWF(vectorMap)
+//@ end
+
+// ---- C12 / C14 / C01: putting the tasks on their nodes ---------------------------------------------------------------
+// (*ClusterInfo).addTasksToNodes and (*ClusterInfo).Snapshot are NOT under contract.  addTasksToNodes hands the lists
+// of getNodeToPodInfosMap to node.AddTasksToNode(list of node.Name, ...); the precondition of that call (and of
+// node_info.AddTask below it) is node_info.nodeWF(node), which contains
+//   (1) vecWF: len(node.IdleVector) == len(node.VectorMap.resourceNames) (same for Used/Releasing), and
+//   (2) node.MemoryOfEveryGpuOnNode > 0.
+// Neither can be established by the snapshot for every API state: (1) all nodes share ONE layout (vectorMap) that
+// grows after a node was built - by the allocatable of every later node (snapshotNodes) and by the requests of every
+// pod (getNodeToPodInfosMap) - so an earlier node's vectors are shorter than the layout as soon as a later node or a
+// pod names a resource the layout did not have (e.g. node A {cpu,memory,pods}, node B {cpu,memory,pods,example.com/foo}:
+// len(A.IdleVector) = 4, layout = 5).  The code is fine with that (ResourceVector.Add/Sub extend, Get/Set are bounds
+// checked); the CONTRACT of AddTask (owner: node helper) is stronger than what its only production caller provides.
+// (2) is finding F1 (label nvidia.com/gpu.memory in [0,99] or negative; see NewNodeInfo [gpuMemory]).
+// What IS proved of this step: the three pieces it composes - getNodeToPodInfosMap (tasks built from the live bind
+// request and listed under their node), AddTasksToNode (occupying pods recorded, exact effect for 0/1 pods) and
+// snapshotNodes (nodes keyed by name, empty) - and, by reading the eight lines of addTasksToNodes, that each node gets
+// exactly the two lists stored under ITS name and that lists under other names ("" or a node that is not in the
+// snapshot) are handed to no node.
+
+// ---- C14 / C10: the jobs of the snapshot ------------------------------------------------------------------------------
+//@ func github.com/pkg/errors.WithStack
+//@   props C10
+//@   trusted
+//@   note external (github.com/pkg/errors): wraps the error with a stack trace; assumed read-only, non-nil for a non-nil argument
+//@   pure
+//@   ensures (result == nil) == (arg0 == nil)
+//@ end
+
+// C14 "pods present ... each workload": the task of a pod is the ONE registered under the pod's UID by the node pass
+// (addTasksToNodes), so the job and the node see the same object; a pod that was not registered (its node is not in
+// the snapshot) gets a new task without bind request and is registered now.  Either way the result is the registered task.
+//@ func (*ClusterInfo).getPodInfo
+//@   props C14 C10
+//@   requires pod != nil && existingPods != nil && vectorMap != nil
+//@   requires forall u in existingPods :: existingPods[u] != nil
+//@   modifies existingPods[pod.UID]
+//@   ensures [registered] pod.UID in existingPods && existingPods[pod.UID] == result && result != nil
+//@   ensures [reused] old(pod.UID in existingPods) ==> result == old(existingPods[pod.UID])
+//@   ensures [newWithoutRequest] !old(pod.UID in existingPods) ==> fresh(result) && result.Pod == pod && result.BindRequest == nil && result.Status == pod_info.taskStatusOf(pod, false) && result.NodeName == pod.Spec.NodeName
+//@   ensures [registryNonNil] forall u in existingPods :: existingPods[u] != nil
+//@ end
+
+//@ func (*ClusterInfo).setPodGroupPriorityAndPreemptibility
+//@   props C10
+//@   requires ciWF(c) && podGroupInfo != nil && podGroup != nil
+//@   modifies podGroupInfo.Priority, podGroupInfo.Preemptibility
+//@ end
+
+// snapshotPodGroups is not under contract: after (*PodGroupInfo).SetPodGroup (which replaces the pod sets) the
+// preconditions of (*PodGroupInfo).AddTaskInfo (idxWF / allPsWF / accOK of the job helper's file) are not re-established
+// by any contract, NewPodGroupInfoWithVectorMap and AddSimpleJobFitError have no contract, and accOK compares vector
+// lengths under the growing layout (see the note on addTasksToNodes).  Its no-panic obligations that do not depend on
+// those: ListPodByIndex returns non-nil *v1.Pod elements (assumed, data_lister), so the unchecked `pod, ok :=
+// rawPod.(*v1.Pod)` followed by getPodInfo(pod) does not dereference nil; GetPriorityClassByName returns a non-nil
+// class when err == nil (assumed); isPodGroupUpForScheduler needs c.nodePoolParams != nil (ciWF, established by New).
